@@ -20,6 +20,12 @@ Every value the harness sends is checked for `Payload.markerWF` (the representat
 invariant `C10.ArgsWF` of the theorems); a violation is answered `marker-wf-violation`,
 which the harness reports as a correspondence mismatch.
 
+  fn.wrap   <params> <var> <refine> <tf> <impl> <args> <wrappers> <entry>
+            wrappers := ( ((redesc n) | unpred)* )   entry := call | proxy | rtfv | rt
+            -- the constructors WithNewDescriptions / Unpredictable applied left to right, then one entry point
+            -- (`rt` is handed the types of <args>); the trace lists the invocations of the SPEC's callbacks, so
+            -- the `impl` event of `unpredictableImpl` (which is not the spec's Impl) is left out
+
 Answer: `<outcome> | <event>*` with outcome `ok <val|ty>` | `argerr <i>` | `err`
 (plain error) | `cberr` (the callback's own error) | `panicerr` (PanicError) |
 `panic` (a Go panic escaping the call), and events `(type <args>)`,
@@ -27,7 +33,8 @@ Answer: `<outcome> | <event>*` with outcome `ok <val|ty>` | `argerr <i>` | `err`
 -/
 import Driver.Util
 import CtyModel.Function
-open CtyModel CtyModel.Fn
+import CtyModel.FnD10
+open CtyModel CtyModel.Fn CtyModel.Fn.D10
 
 namespace HFunc
 
@@ -41,59 +48,11 @@ def decVar : Sexp → Option (Option Param)
   | .atom "-" => some none
   | s => (decParam s).map some
 
-/-- refinement record a fresh builder starts from (`Value.Refine`), by type -/
-def freshRfn : Ty → Rfn
-  | .string => .str .u ""
-  | .number => .num .u none none
-  | .list _ | .set _ | .map _ => .coll .u 0 9223372036854775807
-  | _ => .nullable .u
-
-def setNotNull : Rfn → Rfn
-  | .unref => .unref
-  | .nullable _ => .nullable .f
-  | .str _ p => .str .f p
-  | .num _ lo hi => .num .f lo hi
-  | .coll _ lo hi => .coll .f lo hi
-
-/-- `func(b) { return b.NotNull() }` followed by `NewValue()`, on a shallowly
-unmarked value: `.ok payload`, `.panic` (the builder panics), `.unmodelled`
-(the one-element-set collapse, whose bucket id needs the value hash). -/
-def notNull (v : Value) : Res Payload :=
-  match v.v with
-  | .null => .panic "refining null value as non-null"
-  | .unk r =>
-    if v.ty.isDyn then .ok (.unk r)                       -- DynamicVal: silently ignored
-    else
-      let wip := match r with
-        | .unref => freshRfn v.ty
-        | r => r
-      if wip.nullness == .t then .panic "refining null value as non-null"
-      else
-        match setNotNull wip with
-        | .num n (some lo) (some hi) =>
-          if lo.incl && hi.incl && Num.cmp lo.v hi.v == 0 then .ok (.n lo.v)
-          else .ok (.unk (.num n (some lo) (some hi)))
-        | .coll n lo hi =>
-          if lo == hi then
-            match v.ty with
-            | .list _ => .ok (.seq (List.replicate lo.toNat (.unk .unref)))
-            | .set _ => if lo == 0 then .ok (.sset [] []) else if lo == 1 then .unmodelled else .ok (.unk (.coll n lo hi))
-            | .map _ => if lo == 0 then .ok (.smap [] []) else .ok (.unk (.coll n lo hi))
-            | _ => .ok (.unk (.coll n lo hi))
-          else .ok (.unk (.coll n lo hi))
-        | w => .ok (.unk w)
-  | p => .ok p
-
 /-- `some refiner`, or `none` when the menu entry is unknown -/
 def decRefine : Sexp → Option (Option (Value → Res Payload))
   | .atom "none" => some none
   | .atom "notnull" => some (some notNull)
-  | .atom "panics" => some (some fun _ => .panic "refine callback")
-  | _ => none
-
-def toRefineFn (r : Value → Res Payload) : RefineFn := fun v =>
-  match r v with
-  | .ok p => some p
+  | .atom "panics" => some (some refinePanics)
   | _ => none
 
 def decTf : Sexp → Option TypeFn
@@ -150,6 +109,25 @@ def paramStr (p : Param) : String :=
 
 def allMarkerWF (vs : List Value) : Bool := vs.all fun v => v.v.markerWF
 
+/-! Outside the modelled fragment: a marked argument holding a set with two members in ONE hash bucket.
+Go's `UnmarkDeep` rebuilds such a set through `cty.SetVal`, which re-adds the members in `Less` order, so
+the order inside the bucket can change; the shared `Payload.stripMarks` keeps it.  (Seen once in 3·10⁶
+random cases: the numbers 1 and 1+2⁻⁴⁷⁷ at 512 bits hash alike.)  Answered `unmodelled`, counted, not compared. -/
+def adjDup : List Int → Bool
+  | a :: b :: r => a == b || adjDup (b :: r)
+  | _ => false
+mutual
+def dupBucket : Payload → Bool
+  | .sset ids vs => adjDup ids || dupBucketL vs
+  | .seq vs | .smap _ vs => dupBucketL vs
+  | .marked _ r => dupBucket r
+  | _ => false
+def dupBucketL : List Payload → Bool
+  | [] => false
+  | v :: vs => dupBucket v || dupBucketL vs
+end
+def bucketOrderUnmodelled (vs : List Value) : Bool := vs.any fun v => v.containsMarked && dupBucket v.v
+
 /-- `fn.call` / `fn.proxy` / `fn.redesc` after decoding -/
 def runCall (spec : Spec) (rf : Option (Value → Res Payload)) (tf : TypeFn) (impl : ImplFn)
     (as : List Value) (entry : Spec → TypeFn → ImplFn → List Value → Out Value × List Event) : String :=
@@ -157,8 +135,47 @@ def runCall (spec : Spec) (rf : Option (Value → Res Payload)) (tf : TypeFn) (i
     | .ok (_, d) => d
     | _ => false
   if !allMarkerWF as then "marker-wf-violation"
+  else if bucketOrderUnmodelled as then "unmodelled"
   else if refineUnmodelled rf (callUnrefined spec tf impl as) dynShort then "unmodelled"
   else answer valStr (entry spec tf impl as)
+
+def decWrapper : Sexp → Option Wrapper
+  | .list [.atom "redesc", n] => do pure (.redesc (← Sexp.decNat n))
+  | .atom "unpred" => some .unpredictable
+  | _ => none
+
+def decEntry : String → Option Entry
+  | "call" => some .call
+  | "proxy" => some .proxy
+  | "rtfv" => some .rtfv
+  | "rt" => some .rt
+  | _ => none
+
+def ansStr : Ans → String
+  | .val v => valStr v
+  | .ty t => tyStr t
+
+def isImplEvent : Event → Bool
+  | .impl _ _ => true
+  | _ => false
+
+/-- `fn.wrap` after decoding -/
+def runWrap (f : Func) (rf : Option (Value → Res Payload)) (ws : List Wrapper) (e : Entry) (as : List Value) : String :=
+  if !allMarkerWF as then "marker-wf-violation"
+  else if bucketOrderUnmodelled as then "unmodelled"
+  else
+    match wrap f ws with
+    | .ok f' =>
+      let dynShort := match (returnTypeForValues f'.spec f'.tf as).1 with
+        | .ok (_, d) => d
+        | _ => false
+      let valued := e == .call || e == .proxy
+      if valued && refineUnmodelled rf (callUnrefined f'.spec f'.tf f'.impl as) dynShort then "unmodelled"
+      else
+        let r := run f' e as
+        let tr := if ws.contains .unpredictable then r.2.filter (fun ev => !isImplEvent ev) else r.2
+        answer ansStr (r.1, tr)
+    | _ => "panic |"
 
 end HFunc
 
@@ -195,6 +212,17 @@ def handleFunc : Handler := fun op args =>
     match spec.withNewDescriptions n with
     | .ok spec' => pure (runCall spec' rf tf impl as call)
     | _ => pure "panic |"
+  | "fn.wrap", [.list ps, var, rf, tf, impl, .list as, .list ws, .atom entry] => do
+    let ps ← ps.mapM decParam
+    let var ← decVar var
+    let rf ← decRefine rf
+    let tf ← decTf tf
+    let impl ← decImpl impl
+    let as ← as.mapM Value.ofSexp
+    let ws ← ws.mapM decWrapper
+    let e ← decEntry entry
+    let spec : Spec := { params := ps, varParam := var, refine := rf.map toRefineFn }
+    pure (runWrap ⟨spec, tf, impl⟩ rf ws e as)
   | "fn.params", [.list ps, var] => do
     let ps ← ps.mapM decParam
     let var ← decVar var
@@ -211,6 +239,7 @@ def handleFunc : Handler := fun op args =>
     let as ← as.mapM Value.ofSexp
     let spec : Spec := { params := ps, varParam := var, refine := rf.map toRefineFn }
     if !allMarkerWF as then pure "marker-wf-violation"
+    else if bucketOrderUnmodelled as then pure "unmodelled"
     else pure (answer tyStr (returnTypeForValuesPub spec tf as))
   | "fn.rt", [.list ps, var, rf, tf, .list ts] => do
     let ps ← ps.mapM decParam
